@@ -23,3 +23,28 @@ package proto
 
 //@ iface ReadAtI.Open
 //@   modifies nothing
+
+// Protobuf record writer constructor and options as callers see them (functional options, not verified against the bodies).
+//@ ghost pwClosed(w Ref) Bool
+//@ func Path
+//@   assumed
+//@   modifies nothing
+//@ func WriteBufferSizeBytes
+//@   assumed
+//@   modifies nothing
+//@ func CompressionType
+//@   assumed
+//@   modifies nothing
+//@ func NewWriter
+//@   assumed
+//@   ensures r1 == nil ==> r0 != nil && pwCount(r0) == 0 && !pwClosed(r0)
+//@   ensures r1 != nil ==> r0 == nil
+//@   fresh r0
+//@   modifies nothing
+
+//@ iface WriterI.Open
+//@   modifies nothing
+
+//@ iface WriterI.Close
+//@   ensures pwClosed(this)
+//@   modifies pwClosed(this)
